@@ -235,7 +235,9 @@ def _initial(ctx):
         rep.saw(fw)
         sx = SymEx(f, opaque=['WyckoffSite::multiplicity'])
         outs = sx.run(fw, [SYM('wyckoff')])
-        ok = len(outs) == 1 and not sx.aborted
+        # (paths that differ only in whether a log line is written build the same site)
+        ok = len(outs) >= 1 and len({repr(sx.deep(o_.st, o_.ret)) for o_ in outs}) == 1 and not sx.aborted and \
+            all(c_[0] != 'cond' for o_ in outs for c_ in o_.pc)
         if ok:
             r = sx.deep(outs[0].st, outs[0].ret)
             for fld, lo, hi in (('x', -0.5, 0.5), ('y', -0.5, 0.5), ('angle', 0.0, 2 * math.pi)):
